@@ -214,6 +214,12 @@ def build(case, o):
         if B64 is None or abs(np.linalg.det(B64)) <= 0:
             o.invalid = True
             return None
+        # stated domain: extents 1e-3 .. 1e3.  A box whose float32 inverse overflows (denormal
+        # lengths, reached only by shrinking) is degenerate in the arithmetic biotite uses.
+        if float(box_heights(B64).min()) < 1e-5 or float(np.abs(B64).max()) > 1e6:
+            o.invalid = True
+            o.label("invalid_box_magnitude_outside_domain")
+            return None
     pl = plan(A64, sel, B64, cs, periodic)
     if pl is None or pl["cells"] > MAX_CELLS:
         o.invalid = True
